@@ -171,10 +171,7 @@ impl RunStats {
     /// Folds one execution into the statistics.
     pub fn absorb(&mut self, label: &str, out: &Outcome, delivered: &[u8]) {
         self.execs += 1;
-        for l in &out.log {
-            fnv(&mut self.log_hash, l.as_bytes());
-            fnv(&mut self.log_hash, b"\n");
-        }
+        fnv(&mut self.log_hash, &out.log_hash.to_le_bytes());
         fnv(&mut self.log_hash, &out.stdout);
         fnv(&mut self.log_hash, delivered);
         let mut faults = String::new();
